@@ -359,12 +359,21 @@ def rule_r5(ctx) -> List[R.Inst]:
     if appended is None:
         insts.append(R.undec(rid, "note-line", file, fn.node.lineno, "note line construction not found"))
     else:
-        e = appended
-        parts = []
-        while isinstance(e, ast.BinOp) and isinstance(e.op, ast.Add):
-            parts.insert(0, e.right)
-            e = e.left
-        parts.insert(0, e)
+        def cat_parts(e):
+            """flat byte-concatenation parts: a + b, b"".join([p, q, *seq]) and b"".join(seq) (the payload, kept as the join call)"""
+            if isinstance(e, ast.BinOp) and isinstance(e.op, ast.Add):
+                return cat_parts(e.left) + cat_parts(e.right)
+            if isinstance(e, ast.Call) and call_name(e) == "join" and isinstance(e.func, ast.Attribute) and isinstance(e.func.value, ast.Constant) and \
+                    e.func.value.value in (b"", "") and len(e.args) == 1 and isinstance(e.args[0], (ast.List, ast.Tuple)):
+                out_ = []
+                for x in e.args[0].elts:
+                    if isinstance(x, ast.Starred):
+                        out_.append(ast.copy_location(ast.Call(func=e.func, args=[x.value], keywords=[]), e))
+                    else:
+                        out_ += cat_parts(x)
+                return out_
+            return [e]
+        parts = cat_parts(appended)
         # the last part is the payload: b"".join(<slots>)
         payload = parts.pop() if parts and isinstance(parts[-1], ast.Call) and call_name(parts[-1]) == "join" else None
         if payload is not None and payload.args and isinstance(payload.args[0], ast.Name):
@@ -377,6 +386,14 @@ def rule_r5(ctx) -> List[R.Inst]:
         else:
             p0 = parts[0]
             toks = C.fstring_tokens(p0.args[0]) if isinstance(p0, ast.Call) and call_name(p0) == "bytes" and p0.args else None
+            if toks is None and isinstance(p0, ast.BinOp) and isinstance(p0.op, ast.Mod) and isinstance(p0.left, ast.Constant) and \
+                    isinstance(p0.left.value, (bytes, str)):
+                # printf form: b"#%03d" % int(measure)
+                import re as _re
+                fmt_ = p0.left.value.decode("ascii", "replace") if isinstance(p0.left.value, bytes) else p0.left.value
+                m_ = _re.fullmatch(r"([^%]*)%(0?\d*)d", fmt_)
+                if m_ and not isinstance(p0.right, ast.Tuple):
+                    toks = [("lit", m_.group(1)), ("val", p0.right, m_.group(2))]
             if not toks or toks[0] != ("lit", "#") or len(toks) != 2 or toks[1][0] != "val":
                 probs.append("the line must start with '#' followed by the measure number")
             else:
